@@ -68,7 +68,8 @@ type Disk struct {
 
 	// Hook is called (without the disk lock) before every operation with the
 	// kind and the per-kind index of the call. It may block (gates).
-	Hook func(kind OpKind, idx int)
+	Hook     func(kind OpKind, idx int)
+	lastSize int64
 	// Fault decides about fault injection; called with the per-kind index.
 	Fault func(kind OpKind, idx int) FaultAction
 }
@@ -228,7 +229,15 @@ func (d *Disk) Size() (int64, error) {
 		d.Log = append(d.Log, Op{Kind: OpSize, Failed: true})
 		return 0, ErrInjected
 	}
+	d.lastSize = d.size
 	return d.size, nil
+}
+
+// LastSizeResult returns what the most recent successful Size call reported.
+func (d *Disk) LastSizeResult() int64 {
+	d.mu.Lock()
+	defer d.mu.Unlock()
+	return d.lastSize
 }
 
 // CurSize returns the current size without logging or faults.
